@@ -39,6 +39,9 @@ CONSTANTS
   AllowTerm = %s
   AllowClose = %s
   AllowPop = TRUE
+  Adv = {}
+  AdvMoves = {}
+  MaxAdv = 0
   Dev = {"zero_length_stuck", "start_after_term", "close_drops_socket_buffer", "close_before_peer_term"}
   Enforced = {}
   Known = {}
